@@ -45,6 +45,7 @@ namespace bxdecay0 {
 
   void Ta180mEC(i_random & prng_, event & event_, const double tcnuc_, double & tdnuc_)
   {
+    BXDECAY0_VERIF_SCOPE("scheme:Ta180mEC", tcnuc_);
     // Scheme of Ta180m decay, not observed yet (5.02.2018), EC branch
     // (NNDC on 5.02.2018 and NDS 126(2015)151). It is supposed that
     // Ta180m (J^pi=9^-, E_exc=77.2 keV) 100% decays to the 3rd excited level
